@@ -120,6 +120,29 @@ func VH_C13_reader_primitives_total() {
 			vrtAssert(r.Read(&x) != nil, "unsupported-target-is-error")
 			vrtReach("ran")
 		})
+	case 5: // zero-size element types: no wire bytes per element, so the length prefix is the only bound
+		which := vrtChoose(3)
+		vhNoPanic("decode-no-panic", func() {
+			r := NewReader(data)
+			// a decode of n bytes may not run longer than a generous multiple of n
+			vrtStepLimit(20000 + 3000*n)
+			switch which {
+			case 0:
+				var z []struct{}
+				_ = r.ReadInto(&z)
+			case 1:
+				var zz [][]struct{}
+				_ = r.ReadInto(&zz)
+			case 2:
+				var t struct {
+					A uint8
+					Z []struct{}
+				}
+				_ = r.ReadInto(&t)
+			}
+			vrtStepLimit(0)
+			vrtReach("ran")
+		})
 	case 4: // targets that already hold previously decoded values (with spare capacity)
 		which := vrtChoose(4)
 		vhNoPanic("decode-no-panic", func() {
